@@ -34,6 +34,14 @@ def cases(tier, variants):
         for s in range(len(SCALES)):
             for tg in (0, 1):
                 yield dict(c, sc=s, tgt=tg)
+    # configuration letters: a pass-through update function (the target test has its own
+    # call site on that path) and a user gradient that keeps ownership of the array it
+    # returns
+    for c in F.convex_cases(2, variants, (3,), fams=("quart",), hesses=("rot2",)):
+        for s in (0, 3):
+            yield dict(c, sc=s, tgt=1, upd=1)
+            yield dict(c, sc=s, tgt=0, user="samebuf")
+            yield dict(c, sc=s, tgt=0, user="constbuf")
     for v in variants:
         for fam in F.NONCONVEX:
             for n in (2, 3):
@@ -79,18 +87,35 @@ def run(case):
         calls.append((np.array(x, copy=True), np.array(g, copy=True), np.array(lb, copy=True),
                       np.array(ub, copy=True)))
         return s
-    oa = F.Obs(p.f, p.g, p.lb, p.ub)
-    ob = F.Obs(lambda x: p.f(x) * s, lambda x: np.asarray(p.g(x), float) * s, p.lb, p.ub)
+    user = case.get("user", "pure")
+    if user == "constbuf":
+        # linear objective whose gradient callable returns its own coefficient array
+        wv = np.array([1.0 + 0.37 * i for i in range(p.n)]) * np.where(np.arange(p.n) % 2, -1, 1)
+        wb = wv * s
+        fa_, ga_ = (lambda x: float(wv @ x)), (lambda x: wv)
+        fb_, gb_ = (lambda x: float(wv @ x) * s), (lambda x: wb)
+        g0 = wv.copy()
+        oa = F.Obs(fa_, ga_, p.lb, p.ub)
+        ob = F.Obs(fb_, gb_, p.lb, p.ub)
+        oa.jac_raw, ob.jac_raw = ga_, gb_
+    else:
+        oa = F.Obs(p.f, p.g, p.lb, p.ub, user=user)
+        ob = F.Obs(lambda x: p.f(x) * s, lambda x: np.asarray(p.g(x), float) * s, p.lb, p.ub,
+                   user=user)
+    ident = (lambda x, f0, f0_old, grad, X, G: (f0, f0_old, grad, G)) if case.get("upd") else None
+    if ident is not None:
+        kw = dict(kw, update_fun_def=ident)
     ea = eb = None
     try:
-        a = minimize_lbfgsb(x0=p.x0.copy(), fun=oa.fun, jac=oa.jac, gradient_scaler=scaler,
+        a = minimize_lbfgsb(x0=p.x0.copy(), fun=oa.fun, jac=getattr(oa, "jac_raw", oa.jac),
+                            gradient_scaler=scaler,
                             ftarget=tgt, **kw)
     except core.CaseTimeout:
         raise
     except Exception as e:
         ea = repr(e)
     try:
-        b = minimize_lbfgsb(x0=p.x0.copy(), fun=ob.fun, jac=ob.jac,
+        b = minimize_lbfgsb(x0=p.x0.copy(), fun=ob.fun, jac=getattr(ob, "jac_raw", ob.jac),
                             ftarget=(None if tgt is None else tgt * s), **kw)
     except core.CaseTimeout:
         raise
@@ -107,6 +132,8 @@ def run(case):
         viol.append(V("scaler_run_differs_from_scaled_objective_run", fields=bad, s=s,
                       msg_a=str(a.message), msg_b=str(b.message), nit_a=int(a.nit),
                       nit_b=int(b.nit)))
+    if user == "constbuf" and not (np.array_equal(wv, g0) and np.array_equal(wb, g0 * s)):
+        viol.append(V("user_gradient_array_modified_by_the_solver", now=wv, was=g0))
     if oa.calls != ob.calls:
         viol.append(V("evaluation_logs_differ", na=len(oa.calls), nb=len(ob.calls), s=s))
     if a.njev >= 1 or calls:
